@@ -170,8 +170,11 @@ impl BuildJob<'_> {
             if !sf.is_override {
                 log_warn!("{:?} - old: {:?}\n", &nice_t, &sf.stamp);
                 log_warn!("{:?} - old: {:?}\n", &nice_t, &newstamp);
-                sf.set_override(ptx.state().env())?;
             }
+            // Also when the override is already known: the user may have edited the file
+            // again since.  Recording its stamp only the first time left a stamp that never
+            // matched again, so everything depending on the file was rebuilt on every run.
+            sf.set_override(ptx.state().env())?;
             sf.save(&mut ptx)?;
             // Fall through and treat it the same as a static file.
         }
